@@ -467,6 +467,9 @@ def apply_contract(eng, c: Contract, fv, args, kwargs, st: State):
             g = eval_clause(eng, s, cl.node)
             oblige(eng, s, g, f"call:{fv.qualname}/{cl.name}", kind=cl.kind or "auxiliary", tags=cl.tags)
             s.assume(g)
+        hk0 = eng.hooks.get("before_apply")
+        if hk0 is not None:
+            hk0(eng, c, s, fv)          # e.g. the data-structure invariant the callee's proof assumed at its entry
         if c.decreases is not None and eng.current_target == c.target:
             # recursive lemma call: measure must decrease and stay >= 0
             m_new = eval_int(eng, s, c.decreases_node())
